@@ -3,8 +3,10 @@
    A case = an agent configuration (tools with kinds, failing argument strings, unknown-tool
    handler, return-directly set, MaxStep, checker, persona modifier), the original messages,
    the model script (every reply whole and as stream chunks) and the observations of the runs
-   of the real react.Agent: per run the mode, every model call's input history, the tool
-   executions grouped by round (in call order), and the final answer or error class
+   of the real react.Agent: per run the mode, whether the case's call options applied (they do
+   not when the agent graph runs as a node of a parent graph, Agent.ExportGraph), every model
+   call's input history, the tool executions grouped by round (in call order), the messages
+   handed out by react.WithMessageFuture (if used), and the final answer or error class
    (1 = step limit, 2 = model failure, 3 = anything else: tools node, concatenation, ...). *)
 From Eino Require Import Base.Util Model.Tools Model.React.
 Local Open Scope string_scope.
@@ -12,7 +14,9 @@ Local Open Scope string_scope.
 Inductive omsg : Type := OM (role : N) (content : string) (calls : list call) (tcid : string).
 Inductive oout : Type := OFinal (m : omsg) | OErr (cls : N).
 Inductive omode : Type := MGenerate | MStream.
-Inductive orun : Type := ORun (md : omode) (inputs : list (list omsg)) (rounds : list (list call)) (out : oout).
+Inductive orun : Type :=
+  ORun (md : omode) (callopts : bool) (inputs : list (list omsg)) (rounds : list (list call))
+       (emits : option (list omsg)) (out : oout).
 Inductive tdef : Type := T (name : string) (k : tkind).
 
 Record ccase : Type := mkCase {
@@ -21,8 +25,10 @@ Record ccase : Type := mkCase {
   k_handler : bool;                (* UnknownToolsHandler configured (answers "unk:name:args") *)
   k_rd : list string;              (* ToolReturnDirectly *)
   k_max_step : nat;                (* AgentConfig.MaxStep (0 = default) *)
+  k_runtime_max : nat;             (* call option compose.WithRuntimeMaxSteps (0 = not given) *)
   k_default_checker : bool;        (* true: firstChunkStreamToolCallChecker, false: a checker reading the whole stream *)
   k_persona : option string;       (* MessageModifier = NewPersonaModifier *)
+  k_mod : N;                       (* 1: in-place rewrite of the first message, 2: in-place window of 3; else by k_persona *)
   k_input : list omsg;
   k_script : list step;
   k_runs : list orun }.
@@ -90,24 +96,33 @@ Definition out_eqb (o : outcome) (x : oout) : bool :=
 
 Definition nonempty {A} (l : list A) : bool := match l with [] => false | _ => true end.
 
-Definition case_trace (c : ccase) (md : omode) : trace :=
+Definition case_modifier (c : ccase) : list msg -> list msg :=
+  match k_mod c with
+  | 1%N => mod_rewrite
+  | 2%N => mod_window 3
+  | _ => match k_persona c with
+         | Some p => mod_persona p
+         | None => fun h => h
+         end
+  end.
+
+Definition case_trace (c : ccase) (md : omode) (callopts : bool) : trace :=
   let rdn := nonempty (k_rd c) in
   agent_run (case_tn c) (fun n => mem_str n (k_rd c)) rdn
-            (match k_persona c with
-             | Some p => fun h => mkMsg RSystem p [] "" :: h
-             | None => fun h => h
-             end)
+            (case_modifier c)
+            (fun cl => match kind_lookup (k_tdefs c) (c_name cl) with Some _ => true | None => false end)
             (if k_default_checker c then default_checker else exact_checker)
             (match md with MGenerate => Generate | MStream => Stream end)
-            (effective_max_steps (k_max_step c) rdn)
+            (call_max_steps (k_max_step c) (if callopts then k_runtime_max c else 0%nat) rdn)
             (k_script c) (map msg_of (k_input c)).
 
 Definition run_ok (c : ccase) (r : orun) : bool :=
   match r with
-  | ORun md inputs rounds out =>
-      let t := case_trace c md in
+  | ORun md callopts inputs rounds emits out =>
+      let t := case_trace c md callopts in
       list_eqb (list_eqb msg_eqb) (t_inputs t) inputs
       && list_eqb (list_eqb call_eqb) (filter nonempty (map (case_executed c) (t_rounds t))) rounds
+      && match emits with Some es => list_eqb msg_eqb (t_emits t) es | None => true end
       && out_eqb (t_out t) out
   end.
 
